@@ -121,7 +121,14 @@ def native_tiny_constant(seed=0):
     # ... and constants far below any absolute tolerance one might pick (elementary charge, Boltzmann's constant): the third update is
     # a PURE multiple of them, so a constant snapped to 0 or to a few digits shows at full relative size
     qe, kB = sympy.Float(1.602176634e-19), sympy.Float(1.380649e-23)
-    sc.state_model[c3] = qe * a * b + kB * c3 * cal
+    sc.state_model[b] = sc.state_model[b] + qe * a * b
+    sc.state_model[c3] = kB * c3 * cal
+    # ... a magnitude term on a symbol without assumptions (its derivative takes the library's real-valued differentiation path) next
+    # to a state and a control entering through Planck's constant alone: entries of the process / control Jacobians are the bare number 6.6e-34
+    sc.magnitude = True  # (points avoid the kink of |.|)
+    sc.state_model[c3] = sc.state_model[c3] + pF * sympy.Abs(a) + sympy.Float(6.62607015e-34) * b  # d/db of this row is the bare number 6.6e-34
+    if sc.control:
+        sc.state_model[c3] = sc.state_model[c3] + sympy.Float(6.62607015e-34) * sc.control[0]
     key = sc.sensor_names[0]
     r0 = sorted(sc.sensor_models[key])[0]
     sc.sensor_models[key][r0] = G * a * b + pF * c3
@@ -131,6 +138,7 @@ def native_tiny_constant(seed=0):
     AU = sorted(sc.control, key=lambda s: s.name)
     F = sympy.Matrix([sc.state_model[s] for s in AS])
     Gx, Fx = scenarios.jacobian_at(F, AS, sub), F.subs(sub)
+    Vx = scenarios.jacobian_at(F, AU, sub) if AU else None
     rn = sorted(sc.sensor_models[key])
     h = sympy.Matrix([sc.sensor_models[key][r] for r in rn])
     Hx = scenarios.jacobian_at(h, AS, sub)
@@ -156,6 +164,11 @@ def native_tiny_constant(seed=0):
                 r = ekf.process_model(float(pt[sc.dt]), state, ekf.Covariance(), ctl)
                 J = ekf.process_jacobian(float(pt[sc.dt]), state, ctl)
                 H = ekf.sensor_jacobian(key, state)
+                if AU:
+                    V = ekf.control_jacobian(float(pt[sc.dt]), state, ctl)
+                    for i in range(sc.n):
+                        for j in range(len(AU)):
+                            rel(f"CSE {'on' if cse else 'off'}: control_jacobian[{i},{j}]", V[i, j], Vx[i, j])
                 for i in range(sc.n):
                     rel(f"CSE {'on' if cse else 'off'}: state {AS[i].name}", r.state.data[i, 0], Fx[i, 0])
                     for j in range(sc.n):
